@@ -179,3 +179,316 @@ def call_writes_for(repo: Repo, rel: str, cls: str):
         return set()
 
     return cw
+
+
+# --------------------------------------------------------------------------- PROTO / ALLOC effects (E6)
+
+PROTO_MUTATORS = {"append", "pop", "extend", "insert", "remove", "clear", "sort", "MergeFrom", "CopyFrom", "ClearField", "Clear", "add", "SetInParent"}
+ALLOC_CALLS = {"new_message_id", "create_object_from_dict", "lookup_key", "add_component_metadata", "add_component_reference", "create_iwa_segment"}
+
+# receiver-type table: (class, attribute or parameter name) -> (module, class).  One line each, confirmed by reading
+# the constructor that assigns it.
+RECEIVERS = {
+    "_model": ("model.py", "_NumbersModel"),  # Cell._model / Table._model / Sheet._model / Document._model = _NumbersModel
+    "model": ("model.py", "_NumbersModel"),  # parameter convention in cell.py/xrefs.py/formula.py
+    "objects": ("containers.py", "ObjectStore"),  # _NumbersModel.objects = ObjectStore(filepath)
+    "_table_strings": ("model.py", "DataLists"),  # _NumbersModel.__init__
+    "_table_formats": ("model.py", "DataLists"),
+    "_table_styles": ("model.py", "DataLists"),
+    "_control_specs": ("model.py", "DataLists"),
+    "_formulas": ("model.py", "DataLists"),
+    "name_ref_cache": ("xrefs.py", "ScopedNameRefCache"),  # _NumbersModel.__init__
+    "_iwork": ("iwork.py", "IWork"),  # ObjectStore.__init__
+    "_handler": ("containers.py", "ObjectStore"),  # IWork(handler=self) in ObjectStore.__init__
+    "_sheets": ("containers.py", "ItemsList"),
+    "_tables": ("containers.py", "ItemsList"),
+    "sheets": ("containers.py", "ItemsList"),
+    "tables": ("containers.py", "ItemsList"),
+}
+CLASS_HOME = {
+    "_NumbersModel": "model.py", "DataLists": "model.py", "MergeCells": "model.py", "ObjectStore": "containers.py", "ItemsList": "containers.py",
+    "IWork": "iwork.py", "Cell": "cell.py", "Table": "document.py", "Sheet": "document.py", "Document": "document.py", "Style": "cell.py",
+    "TableFormulas": "formula.py", "Formula": "formula.py", "CellRange": "xrefs.py", "ScopedNameRefCache": "xrefs.py", "Cacheable": "numbers_cache.py",
+    "IWAFile": "iwafile.py", "IWACompressedChunk": "iwafile.py", "IWAArchiveSegment": "iwafile.py",
+}
+CELL_SUBCLASSES = {"NumberCell", "TextCell", "RichTextCell", "BulletedTextCell", "EmptyCell", "BoolCell", "DateCell", "DurationCell", "ErrorCell", "MergedCell"}
+
+
+def _terminates(block) -> bool:
+    if not block:
+        return False
+    last = block[-1]
+    if isinstance(last, (ast.Return, ast.Raise)):
+        return True
+    if isinstance(last, ast.If) and last.orelse:
+        return _terminates(last.body) and _terminates(last.orelse)
+    return False
+
+
+def _none_test(test, none_params):
+    """'is' / 'isnot' if the test is ``p is None`` / ``p is not None`` for p in none_params (alone or first of an ``and``)."""
+    conds = [test]
+    if isinstance(test, ast.BoolOp) and isinstance(test.op, ast.And):
+        conds = test.values
+    for c in conds:
+        if isinstance(c, ast.Compare) and len(c.ops) == 1 and isinstance(c.left, ast.Name) and c.left.id in none_params \
+                and isinstance(c.comparators[0], ast.Constant) and c.comparators[0].value is None:
+            if isinstance(c.ops[0], ast.IsNot):
+                return "isnot"
+            if isinstance(c.ops[0], ast.Is) and len(conds) == 1:
+                return "is"
+    return None
+
+
+def live_statements(func, none_params=frozenset()):
+    """Statements (and their sub-nodes) reachable when the parameters in ``none_params`` are None."""
+    out = []
+
+    def block(stmts):
+        for s in stmts:
+            if isinstance(s, ast.If) and none_params:
+                k = _none_test(s.test, none_params)
+                if k == "isnot":
+                    out.extend(ast.walk(s.test))
+                    block(s.orelse)
+                    if s.orelse and _terminates(s.orelse):
+                        return
+                    continue
+                if k == "is":
+                    out.extend(ast.walk(s.test))
+                    block(s.body)
+                    if _terminates(s.body):
+                        return
+                    continue
+            if isinstance(s, (ast.If, ast.For, ast.While, ast.With, ast.Try)):
+                for fld in ("test", "iter", "target", "items"):
+                    v = getattr(s, fld, None)
+                    if isinstance(v, ast.AST):
+                        out.extend(ast.walk(v))
+                    elif isinstance(v, list):
+                        for it in v:
+                            out.extend(ast.walk(it))
+                out.append(s)
+                block(getattr(s, "body", []))
+                for h in getattr(s, "handlers", []):
+                    block(h.body)
+                block(getattr(s, "orelse", []))
+                block(getattr(s, "finalbody", []))
+                if isinstance(s, ast.If) and s.orelse and _terminates(s.body) and _terminates(s.orelse):
+                    return
+                continue
+            if isinstance(s, (ast.FunctionDef, ast.ClassDef)):
+                continue
+            out.extend(n for n in ast.walk(s) if not isinstance(n, (ast.FunctionDef, ast.Lambda)) or n is s)
+            if isinstance(s, (ast.Return, ast.Raise)):
+                return
+
+    block(func.body)
+    return out
+
+
+class EffectAnalysis:
+    """Transitive PROTO/ALLOC effects of a function, with receiver-table call resolution and
+    call-site specialisation of omitted ``= None`` parameters."""
+
+    def __init__(self, repo: Repo):
+        self.repo = repo
+        self.memo = {}
+        self.unresolved = set()
+        self.visited = set()
+
+    def _class_of(self, func):
+        p = getattr(func, "_parent", None)
+        while p is not None:
+            if isinstance(p, ast.ClassDef):
+                return p.name
+            p = getattr(p, "_parent", None)
+        return None
+
+    def _find(self, cls, name, setter=False):
+        """Function definitions named ``name`` in ``cls`` or its repo bases."""
+        rel = CLASS_HOME.get(cls)
+        if cls in CELL_SUBCLASSES:
+            rel = "cell.py"
+        if rel is None:
+            return []
+        try:
+            c = self.repo.cls(rel, cls)
+        except Exception:  # noqa: BLE001
+            return []
+        out = []
+        for n in c.body:
+            if isinstance(n, ast.FunctionDef) and n.name == name:
+                is_setter = any(U(d).endswith(".setter") for d in n.decorator_list)
+                if is_setter == setter:
+                    out.append(n)
+        if not out:
+            for b in c.bases:
+                bn = last_attr(b)
+                if bn in CLASS_HOME or bn in CELL_SUBCLASSES:
+                    out += self._find(bn, name, setter)
+        return out
+
+    def resolve(self, call: ast.Call, cls):
+        """Resolved callee FunctionDefs of a call (may be empty)."""
+        f = call.func
+        if isinstance(f, ast.Name):
+            # module-level function in any repo module (unique names only)
+            found = []
+            for mod in ("model.py", "cell.py", "document.py", "iwafile.py", "xrefs.py", "formula.py", "containers.py", "numbers_cache.py"):
+                for n in self.repo.tree(mod).body:
+                    if isinstance(n, ast.FunctionDef) and n.name == f.id:
+                        found.append(n)
+            if f.id in CLASS_HOME or f.id in CELL_SUBCLASSES:
+                found += self._find(f.id, "__init__") + self._find(f.id, "__post_init__")
+            return found
+        if not isinstance(f, ast.Attribute):
+            return []
+        name = f.attr
+        recv = f.value
+        if isinstance(recv, ast.Name) and recv.id in ("self", "cls") and cls:
+            r = self._find(cls, name)
+            if cls == "Cell" or cls in CELL_SUBCLASSES:
+                for sub in CELL_SUBCLASSES:
+                    r += [x for x in self._find(sub, name) if x not in r]
+            return r
+        if isinstance(recv, ast.Name) and (recv.id in CLASS_HOME or recv.id in CELL_SUBCLASSES):
+            return self._find(recv.id, name)
+        key = last_attr(recv)
+        if key in RECEIVERS and isinstance(recv, (ast.Name, ast.Attribute)):
+            rel, c = RECEIVERS[key]
+            return self._find(c, name)
+        return []
+
+    def property_reads(self, node, cls):
+        """Property getters invoked by attribute loads ``self.x`` / ``self._model.x``."""
+        out = []
+        if isinstance(node, ast.Attribute) and isinstance(node.ctx, ast.Load):
+            recv = node.value
+            target_cls = None
+            if isinstance(recv, ast.Name) and recv.id == "self":
+                target_cls = cls
+            elif last_attr(recv) in RECEIVERS and isinstance(recv, (ast.Name, ast.Attribute)):
+                target_cls = RECEIVERS[last_attr(recv)][1]
+            if target_cls:
+                for fn in self._find(target_cls, node.attr):
+                    if any(U(d) in ("property",) or U(d).endswith("property") for d in fn.decorator_list):
+                        out.append(fn)
+                if target_cls == "Cell" or target_cls in CELL_SUBCLASSES:
+                    for sub in CELL_SUBCLASSES:
+                        for fn in self._find(sub, node.attr):
+                            if fn not in out and any(U(d) == "property" for d in fn.decorator_list):
+                                out.append(fn)
+        return out
+
+    def effects(self, func, none_params=frozenset(), depth=0, stack=()):
+        key = (id(func), none_params)
+        if key in self.memo:
+            return self.memo[key]
+        if key in stack or depth > 12:
+            return set()
+        cls = self._class_of(func)
+        q = self.repo.qualname(func)
+        self.visited.add((q, tuple(sorted(none_params))))
+        nodes = live_statements(func, none_params)
+        eff = set()
+        # taint: locals derived from the object store
+        tainted = set()
+
+        def is_store_expr(e):
+            """Expression denotes (part of) a stored protobuf object."""
+            if isinstance(e, (ast.ListComp, ast.DictComp, ast.GeneratorExp, ast.SetComp)):
+                return any(is_store_expr(gn.iter) for gn in e.generators)
+            if isinstance(e, ast.Call) and isinstance(e.func, ast.Name) and e.func.id in ("list", "tuple", "sorted", "reversed", "next", "iter") and e.args:
+                return is_store_expr(e.args[0])
+            n = e
+            while isinstance(n, (ast.Attribute, ast.Subscript, ast.Call)):
+                if isinstance(n, ast.Subscript):
+                    b = U(n.value)
+                    if b.endswith("objects") or b.endswith("_objects"):
+                        return True
+                    n = n.value
+                elif isinstance(n, ast.Call):
+                    if isinstance(n.func, ast.Attribute) and n.func.attr in ("table_style", "cell_text_style", "table_format", "metadata_component", "calc_engine", "get_formula_owner", "lookup_value"):
+                        return True
+                    n = n.func
+                else:
+                    n = n.value
+            return isinstance(n, ast.Name) and n.id in tainted
+
+        changed = True
+        while changed:
+            changed = False
+            for n in nodes:
+                if isinstance(n, ast.Assign) and is_store_expr(n.value):
+                    for t in n.targets:
+                        for tt in ([t] if not isinstance(t, ast.Tuple) else t.elts):
+                            if isinstance(tt, ast.Name) and tt.id not in tainted:
+                                tainted.add(tt.id)
+                                changed = True
+                if isinstance(n, ast.For) and is_store_expr(n.iter):
+                    for tt in ast.walk(n.target):
+                        if isinstance(tt, ast.Name) and tt.id not in tainted:
+                            tainted.add(tt.id)
+                            changed = True
+                if isinstance(n, (ast.ListComp, ast.GeneratorExp, ast.DictComp)):
+                    for gen in n.generators:
+                        if is_store_expr(gen.iter):
+                            for tt in ast.walk(gen.target):
+                                if isinstance(tt, ast.Name) and tt.id not in tainted:
+                                    tainted.add(tt.id)
+                                    changed = True
+        for n in nodes:
+            tgts = []
+            if isinstance(n, ast.Assign):
+                tgts = n.targets
+            elif isinstance(n, ast.AugAssign):
+                tgts = [n.target]
+            elif isinstance(n, ast.Delete):
+                tgts = n.targets
+            for t in tgts:
+                for tt in ([t] if not isinstance(t, (ast.Tuple, ast.List)) else t.elts):
+                    if isinstance(tt, (ast.Attribute, ast.Subscript)) and is_store_expr(tt.value):
+                        eff.add(("PROTO", f"{q}: {U(n)[:80]}", self.repo.loc(n)))
+                    # writes into the store containers themselves
+                    if isinstance(tt, ast.Subscript) and (U(tt.value).endswith("._objects") or U(tt.value).endswith("file_store") or U(tt.value).endswith("._file_store")):
+                        eff.add(("ALLOC", f"{q}: {U(n)[:80]}", self.repo.loc(n)))
+            if isinstance(n, ast.Call):
+                nm = last_attr(n.func)
+                if isinstance(n.func, ast.Attribute) and nm in PROTO_MUTATORS and is_store_expr(n.func.value):
+                    eff.add(("PROTO", f"{q}: {U(n)[:80]}", self.repo.loc(n)))
+                if nm == "clear_field_container" and n.args and is_store_expr(n.args[0]):
+                    eff.add(("PROTO", f"{q}: {U(n)[:80]}", self.repo.loc(n)))
+                if nm == "set_reference" and n.args and is_store_expr(n.args[0]):
+                    eff.add(("PROTO", f"{q}: {U(n)[:80]}", self.repo.loc(n)))
+                if nm in ALLOC_CALLS:
+                    eff.add(("ALLOC", f"{q}: {U(n)[:80]}", self.repo.loc(n)))
+                if nm == "init" and isinstance(n.func, ast.Attribute) and last_attr(n.func.value) in RECEIVERS and RECEIVERS[last_attr(n.func.value)][1] == "DataLists":
+                    eff.add(("ALLOC", f"{q}: {U(n)[:80]}", self.repo.loc(n)))
+                callees = self.resolve(n, cls)
+                if not callees and isinstance(n.func, ast.Attribute):
+                    self.unresolved.add(U(n.func)[:60])
+                for cal in callees:
+                    sub = omitted_none_params(cal, n)
+                    # a caller parameter known to be None passed through
+                    passed_none = set(sub)
+                    pos = [a.arg for a in cal.args.args]
+                    if pos and pos[0] in ("self", "cls"):
+                        pos = pos[1:]
+                    for i, a in enumerate(n.args):
+                        if isinstance(a, ast.Name) and a.id in none_params and i < len(pos):
+                            passed_none.add(pos[i])
+                    for kw in n.keywords:
+                        if kw.arg and isinstance(kw.value, ast.Name) and kw.value.id in none_params:
+                            passed_none.add(kw.arg)
+                    for e in self.effects(cal, frozenset(passed_none), depth + 1, stack + (key,)):
+                        eff.add((e[0], e[1], e[2]))
+            for getter in self.property_reads(n, cls):
+                if getter is not func:
+                    for e in self.effects(getter, frozenset(), depth + 1, stack + (key,)):
+                        eff.add(e)
+        if not stack:
+            self.memo[key] = eff
+        else:
+            self.memo.setdefault(key, eff)
+        return eff
